@@ -548,9 +548,16 @@ WBXML_DECLARE(WB_BOOL) wbxml_buffer_search(WBXMLBuffer *to, WBXMLBuffer *search,
     if (result != NULL)
         *result = 0;
 
-    /* Always "find" an empty string */
-    if (search->len == 0)
+    /* Always "find" an empty string, at any position that lies inside 'to' */
+    if (search->len == 0) {
+        if (pos > to->len)
+            return FALSE;
+
+        if (result != NULL)
+            *result = pos;
+
         return TRUE;
+    }
 
     /* Check if 'search' is greater than 'to' */
     if (search->len > to->len)
@@ -588,9 +595,16 @@ WBXML_DECLARE(WB_BOOL) wbxml_buffer_search_cstr(WBXMLBuffer *to, const WB_UTINY 
     if (result != NULL)
         *result = 0;
 
-    /* Always "find" an empty string */
-    if (WBXML_STRLEN(search) == 0)
+    /* Always "find" an empty string, at any position that lies inside 'to' */
+    if (WBXML_STRLEN(search) == 0) {
+        if (pos > to->len)
+            return FALSE;
+
+        if (result != NULL)
+            *result = pos;
+
         return TRUE;
+    }
 
     /* Check if 'search' is greater than 'to' */
     if (WBXML_STRLEN(search) > to->len)
